@@ -1,6 +1,7 @@
 ------------------------------ MODULE TraceC13 ------------------------------
 (* Code -> spec for C13.  A case is one signature rendered as one kind of callable (function, *)
-(* method, classmethod, staticmethod, constructor) with every call shape that was executed:    *)
+(* method, classmethod, staticmethod, constructor, stub = a function declared in a .pyi module *)
+(* that the calling module imports) with every call shape that was executed:                   *)
 (*   [sig, kind, crash, redefs : <<[at, attr, pdef, kdef]>>, calls : <<[npos, kws, py, pt]>>] *)
 (*   redefs the history of the module: re-assignment j (`<callee>.__defaults__ = (..pdef      *)
 (*          values..)` for attr = "pos", `<callee>.__kwdefaults__ = {..kdef..}` for "kw") was  *)
@@ -98,15 +99,38 @@ DevExplains(s, c, o) ==
        /\ ObsKwIs(o, DevKw(s, c))
 
 -----------------------------------------------------------------------------
-(* verdict for one call observed on pytype: set of failing clause names *)
-PtFails(s, c, o) ==
+(* verdict for one call observed on pytype: set of failing clause names.                       *)
+(* ErrFails is the clause "an arity / keyword error on the call line iff Bind gives Err"; it is *)
+(* the whole verdict for a STUB function (kind = "stub": the callee is known to pytype only as  *)
+(* `def f(..) -> Any: ...` in a .pyi module, there is no body in which parameters could be     *)
+(* revealed, so the slots are not judged).                                                     *)
+ErrFails(s, c, o) ==
   LET b == Bind(s, c)
       E == o.errs # <<>> IN
   IF b.err # "none"
     THEN (IF E THEN {}
           ELSE IF b.err = "keyword"
                  THEN {"missed-error:" \o k : k \in KeywordKinds(s, c)} ELSE {"missed-error:" \o b.err})
-  ELSE IF E THEN {"false-error"}
+  ELSE IF E THEN {"false-error"} ELSE {}
+(* kind = "splat": a source-defined function called as f(p1, .., *xs, k=..) inside              *)
+(* `def caller(xs: List[PX])`, i.e. with a list whose length is unknown.  Only the call shapes  *)
+(* on which every length agrees are judged (ArgBindOps SplatOutcome): every length raises =>    *)
+(* an arity / keyword error is due on the call line, every length binds => none is.            *)
+SplatFails(s, c, o) ==
+  LET oc == SplatOutcome(s, c, SplatLen(s))
+      E == o.errs # <<>> IN
+  IF oc = "err" /\ ~E THEN {"splat:missed-error:" \o SplatCause(s, c, SplatLen(s))}
+  ELSE IF oc = "binds" /\ E THEN {"splat:false-error"} ELSE {}
+(* CPython on the same call with xs = [PX()] * len for len = 0 .. SplatLen(s): p.lens *)
+SplatPyFails(s, c, p) ==
+  IF Len(p.lens) # SplatLen(s) + 1 THEN {"splat-lengths"} ELSE
+  {"splat-length-" \o ToString(len) : len \in {x \in 0 .. SplatLen(s) :
+      LET k == ErrKind(s, SplatAt(c, x)) IN
+      IF k = "keyword" THEN p.lens[x + 1] \notin KeywordKinds(s, SplatAt(c, x)) ELSE p.lens[x + 1] # k}}
+PtFails(s, c, o) ==
+  LET b == Bind(s, c)
+      E == o.errs # <<>> IN
+  IF b.err # "none" \/ E THEN ErrFails(s, c, o)
   ELSE IF ~o.rev THEN {"no-reveal"}
   ELSE {"wrong-param:" \o n : n \in {m \in ParamNames(s) : ToSet(o.slots[m]) # ExpSlot(s, c, m)}}
        \cup (IF s.va /\ ~(o.vashape = "fixed" /\ ObsVa(o) = ExpVa(s, c)) THEN {"wrong-varargs"} ELSE {})
@@ -151,7 +175,8 @@ Attribution(cs, k) ==
   LET c == CallOf(cs.calls[k])
       o == cs.calls[k].pt
       m == StageOf(cs, k) IN
-  IF DevExplains(SigAt(cs, k), c, o) THEN "posonly"
+  IF cs.kind \in {"stub", "splat"} THEN ""      \* the documented deviations are those of source-defined functions
+  ELSE IF DevExplains(SigAt(cs, k), c, o) THEN "posonly"
   ELSE IF m = 0 THEN ""
   \* "kwignored" (a standing known finding) is tried before "dropkw" (repaired in 860f9fd: its key
   \* has status fixed, so a call that ONLY the dropkw deviation explains is reported again)
@@ -164,12 +189,16 @@ CaseBad(cs) ==    \* <<call index, failing clause, documented deviation that exp
   IF cs.crash # "" THEN {<<0, "crash", "">>}     \* pytype raised instead of analysing the calls
   ELSE
   UNION {{<<k, f, Attribution(cs, k)>> :
-            f \in PtFails(SigAt(cs, k), CallOf(cs.calls[k]), cs.calls[k].pt)} : k \in DOMAIN cs.calls}
+            f \in (IF cs.kind = "stub" THEN ErrFails(SigAt(cs, k), CallOf(cs.calls[k]), cs.calls[k].pt)
+                   ELSE IF cs.kind = "splat" THEN SplatFails(SigAt(cs, k), CallOf(cs.calls[k]), cs.calls[k].pt)
+                   ELSE PtFails(SigAt(cs, k), CallOf(cs.calls[k]), cs.calls[k].pt))} : k \in DOMAIN cs.calls}
 CaseOracle(cs) ==
-  (IF HistoryWellFormed(cs) THEN {} ELSE {<<0, "malformed-history">>})
-  \cup UNION {{<<k, f>> : f \in PyFails(SigAt(cs, k), CallOf(cs.calls[k]), cs.calls[k].py)} : k \in DOMAIN cs.calls}
+  (IF HistoryWellFormed(cs) /\ (cs.kind \in {"stub", "splat"} => cs.redefs = <<>>) THEN {} ELSE {<<0, "malformed-history">>})
+  \cup UNION {{<<k, f>> : f \in (IF cs.kind = "splat"
+                                   THEN SplatPyFails(SigAt(cs, k), CallOf(cs.calls[k]), cs.calls[k].py)
+                                   ELSE PyFails(SigAt(cs, k), CallOf(cs.calls[k]), cs.calls[k].py))} : k \in DOMAIN cs.calls}
 CaseDiv(cs) ==
-  IF cs.crash # "" THEN {} ELSE
+  IF cs.crash # "" \/ cs.kind = "splat" THEN {} ELSE
   {k \in DOMAIN cs.calls : ~KindAgrees(SigAt(cs, k), CallOf(cs.calls[k]), cs.calls[k].pt)}
 
 TInit == i = 1 /\ TLCSet(1, FALSE)
@@ -203,7 +232,11 @@ CaseStat(cs) ==
          b == Bind(s, c) IN
      <<b.err, IF b.err = "none" THEN Len(b.va) ELSE 0,
        IF b.err = "none" THEN Cardinality(b.kw) ELSE 0, DevApplies(s, c),
-       StageOf(cs, k), HistEffect(cs, k)>>]
+       StageOf(cs, k), HistEffect(cs, k),
+       \* a splat call: "binds" / "depends" / the cause for which every length fails
+       IF cs.kind # "splat" THEN ""
+       ELSE IF SplatOutcome(s, c, SplatLen(s)) = "err" THEN SplatCause(s, c, SplatLen(s))
+       ELSE SplatOutcome(s, c, SplatLen(s))>>]
 
 Ok == i <= Len(Cases) =>
         /\ PrintT(<<"STAT", ToJson([i |-> i, calls |-> CaseStat(Cases[i])])>>)
